@@ -7,7 +7,7 @@ import glob, json, os, re, subprocess, sys, time
 INC = os.environ.get("SEED_INCOMING", "_incoming")
 WT = "/tmp/wt_detect" + ("2" if INC != "_incoming" else "")
 OUT = "/tmp/detect_out"
-EXTRA = {"C07": ["C13"], "C08": ["C12"], "C12": ["C08", "C14"], "C19": ["C09", "C05"], "C10": ["C15", "C08", "C09"], "C15": ["C08"], "C18": ["C05"], "C05": ["C19"]}
+EXTRA = {"C07": ["C13"], "C08": ["C12"], "C12": ["C08", "C14"], "C19": ["C09", "C05", "C03"], "C10": ["C15", "C08", "C09"], "C15": ["C08"], "C18": ["C05"], "C05": ["C19"]}
 
 
 def sh(cmd, cwd=None, env=None, timeout=3600):
